@@ -409,6 +409,17 @@ func c15Confusables(rc *RunCtx) {
 		for k := uint(0); k < 8; k++ {
 			ex(rx(base, nonce^(1<<(8*k))), "used-nonce:lookalike-nonce")
 		}
+		// attester identifiers one of which is a string prefix / extension of another: removing one leaves the others
+		am := e.M.AM
+		full := AttesterPool[7].Spell(1)
+		ids := []string{full, full[:42], full[:6], full + "ab", full[:130]}
+		for _, id := range ids {
+			ex(&ct.MsgEnableAttester{From: am, Attester: id}, "attester:enable-prefix-family")
+		}
+		for _, id := range []string{full[:6], full[:130], full, full + "ab", full[:42]} {
+			ex(&ct.MsgDisableAttester{From: am, Attester: id}, "attester:disable-one-of-prefix-family")
+			ex(&ct.MsgDisableAttester{From: am, Attester: id}, "attester:disable-again")
+		}
 		ex(rx(base, nonce<<8|nonce>>56), "used-nonce:rotated-nonce")
 		// domain and nonce bytes exchanged across the key's field boundary
 		ex(rx(uint32(nonce>>32), uint64(base)<<32|nonce&0xffffffff), "used-nonce:fields-exchanged")
